@@ -1,21 +1,101 @@
+//! Generated Hydro flows (C41 / C42b / C28-generated).
+//!
+//! `src/generated.rs` is written by `gen/gen.py` from (seed, N, generator version); the committed
+//! file is a tiny placeholder so the crate builds from a fresh clone. This file holds only what is
+//! hand-written: the location tags and the *observers* that turn a flow's result into something
+//! `embedded_output` accepts. Observers are outside the program under judgement (their `nondet!`s
+//! do not count against the "safe API only" restriction of C28).
 #[cfg(stageleft_runtime)]
 hydro_lang::setup!();
 
-use hydro_lang::live_collections::stream::{ExactlyOnce, TotalOrder};
+use std::fmt::Debug;
+
+use hydro_lang::live_collections::keyed_singleton::KeyedSingletonBound;
+use hydro_lang::live_collections::singleton::SingletonBound;
+use hydro_lang::live_collections::stream::{ExactlyOnce, Ordering, Retries, TotalOrder};
+use hydro_lang::live_collections::boundedness::Boundedness;
 use hydro_lang::prelude::*;
 
-/// Example flow (replace): doubles every input.
-pub fn double<'a>(input: Stream<i64, Process<'a, ()>>) -> Stream<i64, Process<'a, ()>> {
-    input.map(q!(|x| x * 2))
+pub mod generated;
+
+/// Location tags of the (up to three) processes a generated flow may span.
+pub struct P0;
+pub struct P1;
+pub struct P2;
+
+/// What the harness receives for every observed element: its `Debug` rendering.
+pub type Obs<'a, P> = Stream<String, Process<'a, P>, Unbounded, TotalOrder, ExactlyOnce>;
+
+/// Observer for streams of any ordering / retry guarantee (compared as sequence, multiset or set
+/// by the harness according to the *declared* type of the flow result).
+pub fn obs_stream<'a, T: Debug, P, B: Boundedness, O: Ordering, R: Retries>(
+    s: Stream<T, Process<'a, P>, B, O, R>,
+) -> Obs<'a, P> {
+    s.weaken_boundedness::<Unbounded>()
+        .assume_ordering::<TotalOrder>(nondet!(/** observer */))
+        .assume_retries::<ExactlyOnce>(nondet!(/** observer */))
+        .map(q!(|x| format!("{:?}", x)))
 }
 
-/// Example observer wrapper (replace): a singleton observed as the stream of its per-tick samples.
-pub fn running_count<'a>(
-    input: Stream<i64, Process<'a, ()>>,
-) -> Stream<usize, Process<'a, ()>, Unbounded, TotalOrder, ExactlyOnce> {
-    input
-        .count()
+/// Observer for singletons: one sample per tick; the harness uses the last one.
+pub fn obs_singleton<'a, T: Debug, P, B: SingletonBound>(s: Singleton<T, Process<'a, P>, B>) -> Obs<'a, P> {
+    s.sample_eager(nondet!(/** observer */))
+        .assume_ordering::<TotalOrder>(nondet!(/** observer */))
+        .assume_retries::<ExactlyOnce>(nondet!(/** observer */))
+        .map(q!(|x| format!("{:?}", x)))
+}
+
+/// Observer for optionals: sampled as `Option<T>` so that a value that disappears is seen.
+pub fn obs_optional<'a, T: Debug + Clone, P, B: Boundedness>(s: Optional<T, Process<'a, P>, B>) -> Obs<'a, P> {
+    s.into_singleton()
         .sample_eager(nondet!(/** observer */))
-        .assume_ordering(nondet!(/** observer */))
-        .assume_retries(nondet!(/** observer */))
+        .assume_ordering::<TotalOrder>(nondet!(/** observer */))
+        .assume_retries::<ExactlyOnce>(nondet!(/** observer */))
+        .map(q!(|x| format!("{:?}", x)))
+}
+
+/// Observer for keyed singletons whose values may still change: every tick, a snapshot rendered as the
+/// sorted vector of entries; the harness uses the last one. (Public APIs only: snapshot + entries + a
+/// commutative collect inside the observer's own tick.)
+pub fn obs_keyed_singleton_snapshot<'a, K, V, P, B>(s: KeyedSingleton<K, V, Process<'a, P>, B>) -> Obs<'a, P>
+where
+    K: Debug + Ord + Clone,
+    V: Debug + Ord + Clone,
+    B: KeyedSingletonBound<ValueBound = Unbounded>,
+{
+    let tick = s.location().tick();
+    s.snapshot(&tick, nondet!(/** observer */))
+        .entries()
+        .fold(
+            q!(|| Vec::new()),
+            q!(|acc, kv| acc.push(kv), commutative = manual_proof!(/** sorted before use */)),
+        )
+        .map(q!(|mut v| {
+            v.sort();
+            format!("{:?}", v)
+        }))
+        .all_ticks()
+}
+
+/// Observer for keyed singletons whose values are fixed once present: the stream of entries (each key
+/// appears once; compared as a multiset).
+pub fn obs_keyed_singleton_entries<'a, K: Debug, V: Debug, P, B>(s: KeyedSingleton<K, V, Process<'a, P>, B>) -> Obs<'a, P>
+where
+    B: KeyedSingletonBound<ValueBound = Bounded>,
+{
+    s.entries()
+        .weaken_boundedness::<Unbounded>()
+        .assume_ordering::<TotalOrder>(nondet!(/** observer */))
+        .map(q!(|x| format!("{:?}", x)))
+}
+
+/// Observer for keyed streams: entries tagged with their key (the harness groups by key).
+pub fn obs_keyed_stream<'a, K: Debug, V: Debug, P, B: Boundedness, O: Ordering, R: Retries>(
+    s: KeyedStream<K, V, Process<'a, P>, B, O, R>,
+) -> Obs<'a, P> {
+    s.entries()
+        .weaken_boundedness::<Unbounded>()
+        .assume_ordering::<TotalOrder>(nondet!(/** observer */))
+        .assume_retries::<ExactlyOnce>(nondet!(/** observer */))
+        .map(q!(|(k, v)| format!("{:?}\u{1}{:?}", k, v)))
 }
